@@ -4,19 +4,14 @@ From Coq Require Import List Arith NArith Bool Lia.
 From Verif Require Import Lib.Hex Model.MutFile Proofs.MutFileLists Proofs.MutFileRead Proofs.MutFileTU Proofs.MutFileUpdate.
 Import ListNotations.
 
-Section Ops.
-  Variables (sdmf : bool) (maxseg k : nat).
-  Hypothesis Hk : 0 < k.
-  Hypothesis Hm : sdmf = false -> 0 < maxseg.
-
-  Lemma do_overwrite_represents f old new :
+  Lemma do_overwrite_represents sdmf maxseg k (Hk : 0 < k) (Hm : sdmf = false -> 0 < maxseg) f old new :
     represents sdmf maxseg k f old ->
     exists f', do_overwrite maxseg f new = Some f' /\ represents sdmf maxseg k f' new.
   Proof.
     intros (Hs & Hk' & _). unfold do_overwrite. rewrite Hs, Hk'. apply publish_represents; assumption.
   Qed.
 
-  Lemma do_modify_represents f old m :
+  Lemma do_modify_represents sdmf maxseg k (Hk : 0 < k) (Hm : sdmf = false -> 0 < maxseg) f old m :
     represents sdmf maxseg k f old ->
     exists f', do_modify maxseg f m = Some f' /\
                represents sdmf maxseg k f' (match m old with Some new => new | None => old end).
@@ -28,14 +23,14 @@ Section Ops.
     - destruct R as (Hs & Hk' & _). rewrite Hs, Hk'. apply publish_represents; assumption.
   Qed.
 
-  Lemma do_update_represents f old data off :
+  Lemma do_update_represents sdmf maxseg k (Hk : 0 < k) (Hm : sdmf = false -> 0 < maxseg) f old data off :
     represents sdmf maxseg k f old -> off <= length old ->
     exists f', do_update maxseg f data off = Some f' /\ represents sdmf maxseg k f' (splice old data off).
   Proof.
     intros R Hoff. unfold do_update.
     assert (Hs : mf_sdmf f = sdmf) by (destruct R as (Hs & _); exact Hs).
-    rewrite Hs. destruct sdmf eqn:Esd.
-    - apply (do_modify_represents f old (fun o => Some (splice o data off)) R).
+    rewrite Hs. destruct sdmf.
+    - apply (do_modify_represents true maxseg k Hk Hm f old (fun o => Some (splice o data off)) R).
     - assert (Hm0 : 0 < maxseg) by (apply Hm; reflexivity).
       assert (Hseg : mf_segsize f = seg_size_of false maxseg k (length old)) by (destruct R as (_ & _ & H & _); exact H).
       assert (NZ : mf_segsize f <> 0).
@@ -44,7 +39,7 @@ Section Ops.
       destruct (mf_segsize f =? 0) eqn:E0; [apply Nat.eqb_eq in E0; contradiction|].
       rewrite Hlen.
       destruct ((off =? length old) && (off / mf_segsize f =? div_ceil (length old) (mf_segsize f))) eqn:Ec.
-      + apply (do_modify_represents f old (fun o => Some (splice o data off)) R).
+      + apply (do_modify_represents false maxseg k Hk Hm f old (fun o => Some (splice o data off)) R).
       + apply update_in_place_represents; try assumption.
         set (seg := mf_segsize f) in *. set (n := length old) in *.
         destruct (Nat.lt_ge_cases (off / seg) (div_ceil n seg)) as [G|G]; [exact G|exfalso].
@@ -60,28 +55,27 @@ Section Ops.
           apply andb_false_iff in Ec. destruct Ec as [Ec|Ec]; apply Nat.eqb_neq in Ec; contradiction.
   Qed.
 
-  Lemma apply_impl_represents f cur o :
+  Lemma apply_impl_represents sdmf maxseg k (Hk : 0 < k) (Hm : sdmf = false -> 0 < maxseg) f cur o :
     represents sdmf maxseg k f cur -> op_ok cur o ->
     exists f', apply_impl maxseg f o = Some f' /\ represents sdmf maxseg k f' (apply_spec cur o).
   Proof.
     intros R Hok. destruct o as [new|m|data off]; cbn [apply_impl apply_spec].
-    - apply (do_overwrite_represents f cur new R).
-    - apply (do_modify_represents f cur m R).
-    - apply (do_update_represents f cur data off R Hok).
+    - apply (do_overwrite_represents sdmf maxseg k Hk Hm f cur new R).
+    - apply (do_modify_represents sdmf maxseg k Hk Hm f cur m R).
+    - apply (do_update_represents sdmf maxseg k Hk Hm f cur data off R Hok).
   Qed.
 
-  Lemma run_impl_represents ops : forall f cur,
+  Lemma run_impl_represents sdmf maxseg k (Hk : 0 < k) (Hm : sdmf = false -> 0 < maxseg) ops : forall f cur,
     represents sdmf maxseg k f cur -> history_ok cur ops ->
     exists f', run_impl maxseg f ops = Some f' /\ represents sdmf maxseg k f' (run_spec cur ops).
   Proof.
     induction ops as [|o r IH]; intros f cur R Hh.
     - exists f. split; [reflexivity|exact R].
     - destruct Hh as [Hok Hr].
-      destruct (apply_impl_represents f cur o R Hok) as (f1 & H1 & R1).
+      destruct (apply_impl_represents sdmf maxseg k Hk Hm f cur o R Hok) as (f1 & H1 & R1).
       cbn [run_impl]. rewrite H1. unfold run_spec. cbn [fold_left].
       apply (IH f1 (apply_spec cur o) R1 Hr).
   Qed.
-End Ops.
 
 Lemma history_ok_app cur a b : history_ok cur (a ++ b) -> history_ok cur a.
 Proof.
